@@ -476,7 +476,7 @@ def run(tier, seed, focus=None):
     n_lists = 1600 if thorough else 110
     for k in range(n_lists):
         n = rnd.choice([2, 3, 4, 6, 9, 13, 20, 30, 40])
-        with_dict = k % 4 == 3
+        with_dict = False  # dict-valued readings are not 'missing' readings: outside C17's statement
         candles = rand_list(rnd, n, with_dict)
         check_movement(col, candles, k)
         col.scenario(("movement", k))
